@@ -1,9 +1,34 @@
-(* C16 -- placeholder until the aggregation-state theorems are integrated *)
+(* C16 -- Aggregation is read-only, leaves its arguments alone, and is repeatable.
+   Model: Model/AggState.v (world, agg_world, agg_twice, split_out, insert_all) over
+   Model/Pipeline.v (run_pipeline, run_stage); predicate on observed runs: Spec/AggStateSpec.v
+   (c16_ok, c16_check).
+   The model is a pure function world -> world * answer: the pipeline value is an input that is
+   never returned, so "the caller's pipeline object is unmodified" is the observed boolean
+   q_pipe_same of c16_case and is not a statement about the model; index and catalog information
+   is not part of `world` (observed boolean q_meta_same).
+   Vocabulary (Proofs/C16Base.v, C16Facet.v, C16Proofs.v):
+   - out_id d        : the _id field of an output document (None when d is not a document or has none);
+   - storable d      : d is a document carrying an _id the model supports as a key
+                       (exists i, out_id d = Some i /\ id_modelled i = true);
+   - no_clash a b    : the _id of b, as stored, is not == (py_eq) to the stored _id of a, for a
+                       before b in the output (forall i j, out_id a = Some i -> out_id b = Some j ->
+                       py_eq (patch j) (patch i) = false);
+   - ids_distinct l  : ForallOrdPairs no_clash l  (pairwise different _ids after patch);
+   - clash a b       : the negation on documents with _ids (py_eq (patch j) (patch i) = true);
+   - patch           : what an insert stores of a document (datetimes truncated, Model/Update.v).
+   storable_all_b / ids_distinct_b_iff (C16Base.v) decide the two premises by computation.
+   Nothing is guarded: no theorem below is restricted by a reasons function, and
+   C16_model_satisfies_spec needs no premise on the world, the source name or the pipeline
+   (not even the absence of $sample, which the model answers Err EUnmodelled).
+   Refuted/C16.v keeps the checked examples showing that each premise that IS stated is needed. *)
 From Coq Require Import ZArith List String Bool.
-From Verif Require Import Value Expr Pipeline AggState AggStateSpec.
+From Verif Require Import Value PyEq Update Coll Expr Pipeline AggState AggStateSpec.
+From Verif Require Import C16Base C16Facet C16Proofs.
 Import ListNotations.
 Open Scope Z_scope.
 Open Scope string_scope.
+Open Scope list_scope.
+
 Example C16_out_example :
   agg_world [("c", [VDoc [("_id", VInt 1); ("n", VInt 2)]; VDoc [("_id", VInt 2); ("n", VInt 5)]]);
              ("t", [VDoc [("_id", VInt 9)]])] "c"
@@ -13,3 +38,208 @@ Example C16_out_example :
      Ok [VDoc [("_id", VInt 2); ("n", VInt 5)]]).
 Proof. vm_compute. reflexivity. Qed.
 Print Assumptions C16_out_example.
+
+(* ---------------------------------------------------------------- 1. read-only *)
+(* without a final $out no collection of the database changes, whatever the stages do *)
+Theorem C16_read_only : forall (w : world) (src : string) (stages : list value),
+  snd (split_out stages) = None -> fst (agg_world w src (VArr stages)) = w.
+Proof. exact agg_read_only. Qed.
+Print Assumptions C16_read_only.
+
+(* a failing body never touches the world, with or without $out *)
+Theorem C16_failing_body_read_only : forall (w : world) (src : string) (stages : list value) (e : err),
+  run_pipeline w (fst (split_out stages)) (coll_docs w src) = Err e ->
+  fst (agg_world w src (VArr stages)) = w /\ exists e', snd (agg_world w src (VArr stages)) = Err e'.
+Proof. exact agg_body_fails. Qed.
+Print Assumptions C16_failing_body_read_only.
+
+(* the strongest version: for ANY pipeline value, the world is unchanged unless the pipeline is
+   a list of stages ending in {$out: <string t>} whose body ran; then only the key t is rebound *)
+Theorem C16_world_moves_only_by_out : forall (w : world) (src : string) (p : value),
+  fst (agg_world w src p) = w \/
+  exists body t outdocs,
+    p = VArr (body ++ [VDoc [("$out", VStr t)]]) /\
+    run_pipeline w body (coll_docs w src) = Ok outdocs /\
+    fst (agg_world w src p) = set_key t (fst (insert_all [] outdocs)) w.
+Proof. exact agg_world_moves_only_by_out. Qed.
+Print Assumptions C16_world_moves_only_by_out.
+
+(* ---------------------------------------------------------------- 2. repeatable *)
+Theorem C16_repeatable : forall (w : world) (src : string) (stages : list value),
+  snd (split_out stages) = None ->
+  agg_world (fst (agg_world w src (VArr stages))) src (VArr stages) = agg_world w src (VArr stages).
+Proof. exact agg_repeatable. Qed.
+Print Assumptions C16_repeatable.
+
+Theorem C16_repeatable_twice : forall (w : world) (src : string) (stages : list value),
+  snd (split_out stages) = None ->
+  agg_twice w src (VArr stages) =
+  ((w, run_pipeline w stages (coll_docs w src)), (w, run_pipeline w stages (coll_docs w src))).
+Proof. exact agg_twice_same. Qed.
+Print Assumptions C16_repeatable_twice.
+
+(* any run that left the world alone (not a list, failing body, ...) is repeatable *)
+Theorem C16_repeatable_gen : forall (w : world) (src : string) (p : value),
+  fst (agg_world w src p) = w -> agg_twice w src p = (agg_world w src p, agg_world w src p).
+Proof. exact agg_repeatable_gen. Qed.
+Print Assumptions C16_repeatable_gen.
+
+(* ---------------------------------------------------------------- 3. $out *)
+Theorem C16_out_replaces : forall (w : world) (src : string) (stages body : list value) (t : string)
+                                  (outdocs : list value),
+  split_out stages = (body, Some (VStr t)) ->
+  run_pipeline w body (coll_docs w src) = Ok outdocs ->
+  Forall storable outdocs -> ids_distinct outdocs ->
+  agg_world w src (VArr stages) = (set_key t (map patch outdocs) w, Ok outdocs).
+Proof. exact agg_out_replaces. Qed.
+Print Assumptions C16_out_replaces.
+
+(* the target holds exactly the (stored form of the) output *)
+Theorem C16_out_target : forall (w : world) (src : string) (stages body : list value) (t : string)
+                                (outdocs : list value),
+  split_out stages = (body, Some (VStr t)) ->
+  run_pipeline w body (coll_docs w src) = Ok outdocs ->
+  Forall storable outdocs -> ids_distinct outdocs ->
+  coll_docs (fst (agg_world w src (VArr stages))) t = map patch outdocs.
+Proof. exact agg_out_target. Qed.
+Print Assumptions C16_out_target.
+
+(* the output is passed through as the answer *)
+Theorem C16_out_passes_through : forall (w : world) (src : string) (stages body : list value) (t : string)
+                                        (outdocs : list value),
+  split_out stages = (body, Some (VStr t)) ->
+  run_pipeline w body (coll_docs w src) = Ok outdocs ->
+  Forall storable outdocs -> ids_distinct outdocs ->
+  snd (agg_world w src (VArr stages)) = Ok outdocs.
+Proof. exact agg_out_passes_through. Qed.
+Print Assumptions C16_out_passes_through.
+
+(* nothing else moves (no premise on the output, holds on failure too) and no collection is lost *)
+Theorem C16_out_others : forall (w : world) (src : string) (stages body : list value) (t n : string),
+  split_out stages = (body, Some (VStr t)) -> n <> t ->
+  coll_docs (fst (agg_world w src (VArr stages))) n = coll_docs w n.
+Proof. exact agg_out_others. Qed.
+Print Assumptions C16_out_others.
+
+Theorem C16_keys_kept : forall (w : world) (src : string) (p : value) (n : string),
+  In n (map fst w) -> In n (map fst (fst (agg_world w src p))).
+Proof. exact agg_keys_kept. Qed.
+Print Assumptions C16_keys_kept.
+
+(* conversely, an answer Ok of a pipeline with $out is the body's output, and the target holds it *)
+Theorem C16_out_Ok_inv : forall (w : world) (src : string) (stages body : list value) (t : string)
+                                (r : list value),
+  split_out stages = (body, Some (VStr t)) ->
+  snd (agg_world w src (VArr stages)) = Ok r ->
+  run_pipeline w body (coll_docs w src) = Ok r /\
+  fst (agg_world w src (VArr stages)) = set_key t (map patch r) w /\
+  Forall storable r.
+Proof. exact agg_out_Ok_inv. Qed.
+Print Assumptions C16_out_Ok_inv.
+
+(* a duplicate _id in the output: BulkWriteError, the target is left holding exactly the
+   documents before the first duplicate *)
+Theorem C16_out_duplicate : forall (w : world) (src : string) (stages body : list value) (t : string)
+                                   (pre : list value) (d : value) (post : list value) (a : value),
+  split_out stages = (body, Some (VStr t)) ->
+  run_pipeline w body (coll_docs w src) = Ok (pre ++ d :: post) ->
+  Forall storable pre -> ids_distinct pre ->
+  storable d -> In a pre -> clash a d ->
+  agg_world w src (VArr stages) = (set_key t (map patch pre) w, Err EBulk).
+Proof. exact agg_out_duplicate. Qed.
+Print Assumptions C16_out_duplicate.
+
+(* in every case the target ends up holding the stored form of a prefix of the output: the whole
+   of it exactly when the answer is Ok *)
+Theorem C16_out_prefix : forall (w : world) (src : string) (stages body : list value) (t : string)
+                                (outdocs : list value),
+  split_out stages = (body, Some (VStr t)) ->
+  run_pipeline w body (coll_docs w src) = Ok outdocs ->
+  exists pre post, outdocs = pre ++ post /\
+    fst (agg_world w src (VArr stages)) = set_key t (map patch pre) w /\
+    match snd (agg_world w src (VArr stages)) with
+    | Ok r => post = [] /\ r = outdocs
+    | Err _ => post <> []
+    end.
+Proof. exact agg_out_prefix. Qed.
+Print Assumptions C16_out_prefix.
+
+(* ---------------------------------------------------------------- 4. $facet *)
+(* the stage is exactly: run every sub-pipeline with run_pipeline on the stage's own input l *)
+Theorem C16_facet_eq : forall (db : dbmap) (subs : list (string * value)) (l : list value),
+  run_stage db "$facet" (VDoc subs) l =
+  (let! outs := mapM (fun tp => match snd tp with
+                                | VArr stages => let! r := run_pipeline db stages l in Ok (fst tp, VArr r)
+                                | _ => Err EUnmodelled
+                                end) subs in
+   Ok [VDoc (fold_left (fun acc kv => set_key (fst kv) (snd kv) acc) outs [])]).
+Proof. exact run_stage_facet. Qed.
+Print Assumptions C16_facet_eq.
+
+(* pairwise different titles: one field per title, in order, each the answer of its own stages on l
+   (sub-pipelines need not be single-operator stage documents) *)
+Theorem C16_facet_isolated : forall (db : dbmap) (subs : list (string * value)) (l : list value)
+                                    (fields : list (string * value)),
+  NoDup (map fst subs) ->
+  run_stage db "$facet" (VDoc subs) l = Ok [VDoc fields] ->
+  Forall2 (fun sub fld => fst fld = fst sub /\
+                          exists stages r, snd sub = VArr stages /\
+                                           run_pipeline db stages l = Ok r /\ snd fld = VArr r)
+          subs fields.
+Proof. exact facet_isolated. Qed.
+Print Assumptions C16_facet_isolated.
+
+Theorem C16_facet_field : forall (db : dbmap) (subs : list (string * value)) (l : list value)
+                                 (fields : list (string * value)) (t : string) (stages : list value),
+  NoDup (map fst subs) ->
+  run_stage db "$facet" (VDoc subs) l = Ok [VDoc fields] ->
+  In (t, VArr stages) subs ->
+  exists r, run_pipeline db stages l = Ok r /\ assoc t fields = Some (VArr r).
+Proof. exact facet_field. Qed.
+Print Assumptions C16_facet_field.
+
+(* the stage answers as soon as every branch does *)
+Theorem C16_facet_runs : forall (db : dbmap) (subs : list (string * value)) (l : list value),
+  NoDup (map fst subs) ->
+  (forall t p, In (t, p) subs -> exists stages r, p = VArr stages /\ run_pipeline db stages l = Ok r) ->
+  exists fields, run_stage db "$facet" (VDoc subs) l = Ok [VDoc fields].
+Proof. exact facet_runs. Qed.
+Print Assumptions C16_facet_runs.
+
+(* independence from the siblings: permuting or removing the other branches changes no field *)
+Theorem C16_facet_siblings : forall (db : dbmap) (subs subs2 : list (string * value)) (l : list value)
+                                    (fields : list (string * value)),
+  NoDup (map fst subs) -> NoDup (map fst subs2) -> incl subs2 subs ->
+  run_stage db "$facet" (VDoc subs) l = Ok [VDoc fields] ->
+  exists fields2, run_stage db "$facet" (VDoc subs2) l = Ok [VDoc fields2] /\
+                  forall t, In t (map fst subs2) -> assoc t fields2 = assoc t fields.
+Proof. exact facet_siblings. Qed.
+Print Assumptions C16_facet_siblings.
+
+(* what the harness observes as q_facet_iso: a pipeline ending in a $facet returns in every field
+   the answer of the pipeline with the $facet replaced by that sub-pipeline alone *)
+Theorem C16_facet_last : forall (db : dbmap) (pre : list value) (subs : list (string * value))
+                                (l : list value) (fields : list (string * value)) (t : string)
+                                (stages : list value),
+  NoDup (map fst subs) ->
+  run_pipeline db (pre ++ [VDoc [("$facet", VDoc subs)]]) l = Ok [VDoc fields] ->
+  In (t, VArr stages) subs ->
+  exists r, run_pipeline db (pre ++ stages) l = Ok r /\ assoc t fields = Some (VArr r).
+Proof. exact facet_last. Qed.
+Print Assumptions C16_facet_last.
+
+(* ---------------------------------------------------------------- 5. the model satisfies c16_ok *)
+(* for every world, source collection and pipeline value: no premise at all *)
+Theorem C16_model_satisfies_spec : forall (w : world) (src : string) (p : value),
+  let '((w1, r1), (w2, r2)) := agg_twice w src p in
+  c16_ok (mkC16 w p r1 w1 r2 w2 true true true) = true.
+Proof. exact model_c16_ok. Qed.
+Print Assumptions C16_model_satisfies_spec.
+
+(* so the check evaluated on the model's own runs raises at most the bit "outside the model" *)
+Theorem C16_model_check : forall (w : world) (p : value),
+  let '((w1, r1), (w2, r2)) := agg_twice w "c" p in
+  c16_check (mkC16 w p r1 w1 r2 w2 true true true) = 0 \/
+  c16_check (mkC16 w p r1 w1 r2 w2 true true true) = 8.
+Proof. exact model_c16_check. Qed.
+Print Assumptions C16_model_check.
